@@ -100,9 +100,25 @@ class CancelStageHandler(StabilizeHandler[CancelStage]):
             self.run_stage_finalizers(stage)
             stage.end_time = self.current_time_millis()
 
+            # Synthetic children that have started and not finished are canceled with
+            # their parent: a SUSPENDED child has no message of its own that would ever
+            # notice the cancel.
+            children = self.repository.get_synthetic_stages(stage.execution.id, stage.id) or []
+            started_children = [
+                c for c in children if not c.status.is_complete and c.status != WorkflowStatus.NOT_STARTED
+            ]
+
             # Atomic: store stage + message deduplication
             with self.repository.transaction(self.queue) as txn:
                 txn.store_stage(stage)
+                for child in started_children:
+                    txn.push_message(
+                        CancelStage(
+                            execution_type=message.execution_type,
+                            execution_id=message.execution_id,
+                            stage_id=child.id,
+                        )
+                    )
 
                 # Message deduplication
                 if message.message_id:
